@@ -78,6 +78,9 @@ class Potential_Form_Registry(object):
     for name, potential_form in inspect.getmembers(potentialforms, _iscallable):
       name = self._make_standard_name(name)
       if not name in potential_forms:
+        for label in potential_forms:
+          if label.lower() == name.lower():
+            raise Potential_Form_Registry_Exception("The potential forms '{0}' and '{1}' have the same label (labels are not case-sensitive)".format(label, name))
         pf = Existing_Potential_Form(name, potential_form)
         potential_forms[name] = pf
       elif not name in self._standard_labels:
